@@ -33,7 +33,7 @@ ASSUMPTIONS = [
     "outgroup clause read as: minimum unchanged, optimal set unchanged after discarding solutions that use the added species (none when floss > 0)",
     "coherent cost region before and after each change",
 ]
-BUDGET = {"quick": 400, "thorough": 3400}
+BUDGET = {"quick": 900, "thorough": 3400}
 PLAIN_ALGOS = ("thl",)
 ORD_ALGOS = ("ext_spfs", "base_spfs")
 UNORD_ALGOS = ("superdtl", "base_uspfs")
@@ -69,6 +69,20 @@ def plan(tier, seed):
                             {"family": "unordered", "costs": v3[:2]})
         out += L.split_plan("ordered:O3x4x1", spaces.shape_pairs(3, 4, min_sp=3), spaces.ordered_syntenies(1), 16,
                             {"family": "ordered", "costs": v3[:1]})
+        # every 4-leaf object on a species cherry, 2 families: child-order transformations only (a tie nested in the left
+        # child that a decoder enumerates differently from the same tie in the right child)
+        swaps = ["swap_object", "mirror_both"]
+        out += L.split_plan("ordered:O4x2x2/child-order", spaces.shape_pairs(4, 2, min_obj=4, min_sp=2), o2, 60,
+                            {"family": "ordered", "costs": v3[:1], "names": swaps})
+        out += L.split_plan("unordered:U4x2x2/child-order", spaces.shape_pairs(4, 2, min_obj=4, min_sp=2), u2, 60,
+                            {"family": "unordered", "costs": v3[:1], "names": swaps})
+        # the input solved after a pass through its dictionary form, under vectors with a unit cost of zero and an infinite one
+        zero = [core[3], core[4], core[5], core[6], core[7]]
+        dform = {"costs": zero, "names": ["through_dict_form"]}
+        out += L.split_plan("ordered:O3x2x2/dict-form", spaces.shape_pairs(3, 2, min_obj=2), o2, 60, dict(dform, family="ordered"))
+        out += L.split_plan("unordered:U3x2x2/dict-form", spaces.shape_pairs(3, 2, min_obj=2), u2, 60, dict(dform, family="unordered"))
+        for osh, ssh in spaces.shape_pairs(3, 3, min_obj=2):
+            out.append(dict(dform, slice="plain:P3x3/dict-form", family="plain", osh=osh, ssh=ssh))
         out.insert(0, {"slice": "determinism", "family": "det", "tier": "quick"})
         return out
     v5 = [core[0], core[1], core[2], core[3], core[7]]
@@ -215,10 +229,26 @@ def reordered_in_place(inp, family):
     return type(inp)(inp.object_tree, lca, dict(inp.leaf_object_species), dict(inp.costs), dict(inp.leaf_syntenies))
 
 
-def solve(algo, family, pres, twice=False, after_other=False, inplace=False):
+def through_dict_form(inp, O, S, onode, snode):
+    """the same input after a pass through its dictionary / JSON form (what a caller who stores inputs in files solves);
+    node maps rebuilt by name (the default naming is unique)"""
+    data = inp.to_dict()
+    try:
+        data = json.loads(json.dumps(data))
+    except TypeError:
+        pass        # the package's own infinity object is not JSON-serialisable: the dictionary itself is passed on
+    inp2 = type(inp).from_dict(data)
+    onode2 = {v: inp2.object_tree.search_nodes(name=onode[v].name)[0] for v in range(O.n)}
+    snode2 = {v: inp2.species_lca.tree.search_nodes(name=snode[v].name)[0] for v in range(S.n)}
+    return inp2, onode2, snode2
+
+
+def solve(algo, family, pres, twice=False, after_other=False, inplace=False, via_dict=False):
     """-> (min cost or None, list of keys, error)"""
     try:
         inp, O, S, olab, slab, onode, snode = pres.build(family)
+        if via_dict:
+            inp, onode, snode = through_dict_form(inp, O, S, onode, snode)
         fn = reconcile_thl if algo == "thl" else L.SOLVERS[algo][0]
         if after_other:
             list(fn(other_input(inp, S, snode, family), A.POLICY["ALL"]))   # state carried over from another input
@@ -258,6 +288,7 @@ def transformations(onest, snest, costs, family):
     out.append(("leaf_dicts_rotated", "same", {"order": "mid"}))
     out.append(("outgroup_right", "outgroup", {"snest": (snest, "X")}))
     out.append(("outgroup_left", "outgroup", {"snest": ("X", snest)}))
+    out.append(("through_dict_form", "same", {"via_dict": True}))
     out.append(("repeat_same_object", "twice", {}))
     out.append(("repeat_fresh", "same", {}))
     # another input solved first on the same tree objects and the same LowestCommonAncestor structure
@@ -278,7 +309,7 @@ def transformations(onest, snest, costs, family):
     return out
 
 
-def check_input(algo, family, osh, ssh, leafmap, leafsyn, costs, only=None, kinds=None):
+def check_input(algo, family, osh, ssh, leafmap, leafsyn, costs, only=None, kinds=None, names=None):
     """-> (list of (subcheck, detail), nontrivial, runs)"""
     onest, snest = nest(osh), nest(ssh)
     base = Pres(onest, snest, leafmap, leafsyn, costs)
@@ -295,10 +326,12 @@ def check_input(algo, family, osh, ssh, leafmap, leafsyn, costs, only=None, kind
             continue
         if kinds and kind not in kinds:
             continue
+        if names and not any(name.startswith(pfx) for pfx in names):
+            continue
         k = kw.pop("k", None)
         p = Pres(kw.get("onest", onest), kw.get("snest", snest), leafmap, leafsyn, kw.get("costs", costs),
                  kw.get("naming", "default"), kw.get("fam", "id"), kw.get("order", "pre"))
-        c1, k1, err = solve(algo, family, p, twice=(kind == "twice"), after_other=(kind == "after"), inplace=("scale" if kind == "scale_inplace" else kind == "inplace"))
+        c1, k1, err = solve(algo, family, p, twice=(kind == "twice"), after_other=(kind == "after"), inplace=("scale" if kind == "scale_inplace" else kind == "inplace"), via_dict=kw.get("via_dict", False))
         runs += 1
         if err:
             bad.append((name, f"{name}: {err}"))
@@ -430,7 +463,7 @@ def run_shard(shard, tier, seed):
         n_inputs += 1
         for costs in shard["costs"]:
             for algo in algos:
-                bad, is_nt, runs = check_input(algo, fam, osh, ssh, leafmap, leafsyn, costs, kinds=shard.get("kinds"))
+                bad, is_nt, runs = check_input(algo, fam, osh, ssh, leafmap, leafsyn, costs, kinds=shard.get("kinds"), names=shard.get("names"))
                 n_eval += runs
                 counters["solver_runs"] += runs
                 if is_nt:
